@@ -227,6 +227,26 @@ def transform(rng, kind, d=2, n_align=None):
         return mt.Similarity(h)
     if kind == "Rotation":
         return mt.Rotation(rotation_matrix(rng, d))
+    if kind == "MirrorRotation":
+        # an improper rotation held by a Rotation object (what allow_mirror alignments and SVD decompositions produce)
+        return mt.Rotation(rotation_matrix(rng, d, mirror=True))
+    if kind in ("IntAffine", "IntHomogeneous", "IntSimilarity"):
+        # matrices given as integer arrays (the constructors keep the dtype)
+        for _ in range(100):
+            h = np.eye(d + 1, dtype=np.int64)
+            if kind == "IntSimilarity":
+                perm = rng.permutation(d)
+                L = np.zeros((d, d), dtype=np.int64)
+                L[np.arange(d), perm] = rng.choice([-1, 1], d)
+                L = L * int(rng.integers(2, 4))
+            else:
+                L = rng.integers(-3, 4, (d, d))
+            if abs(np.linalg.det(L)) < 1.5 or np.linalg.cond(L.astype(float)) > 8:
+                continue
+            h[:d, :d] = L
+            h[:d, d] = rng.integers(-5, 6, d)
+            break
+        return {"IntAffine": mt.Affine, "IntHomogeneous": mt.Homogeneous, "IntSimilarity": mt.Similarity}[kind](h)
     if kind == "Translation":
         return mt.Translation(rng.uniform(-5, 5, d))
     if kind == "UniformScale":
